@@ -290,6 +290,10 @@ def load_known():
 
 def finish(ctx, level="model_checking", rule="", extra=None):
     """Match findings against known_findings.json, write evidence, print lines, return exit code."""
+    # a check that skipped most of its cases has not checked anything: that is a fault of the machinery, not a pass
+    for k, v in ctx.notes.items():
+        if isinstance(v, int) and str(k).startswith("skipped:") and v > 0.5 * max(1, ctx.evaluations):
+            raise _tlc.MachineryError(f"{v} of {ctx.evaluations} cases were skipped ({k})")
     known = [k for k in load_known().get("findings", []) if k["property"] == ctx.prop]
     new = []
     matched = {}
